@@ -308,6 +308,12 @@ func check(sc scenario, r *result, meta *hx.Meta) {
 		}
 	}
 	for _, e := range r.Log {
+		if (e.Kind == "visit" && e.EKind == probe.KException || e.Kind == "close") && e.Cls == 4 {
+			v("C07", "exception-identity", "an exception handler (or the close reason) received an error value that is neither the panic value itself nor, for non-error panic values, its text: the identity of an error panic value was lost")
+			break
+		}
+	}
+	for _, e := range r.Log {
 		if e.Kind == "visit" && !e.CtxOK {
 			v("C03", "ctx-binding", "handler invoked with a context not bound to its own position")
 		}
@@ -383,7 +389,7 @@ func genScenario(rng *hx.Rng, meta *hx.Meta, prop string) scenario {
 			}
 			b := probe.Beh{B: choices[rng.Intn(len(choices))], ID: i*10 + k}
 			if b.B == probe.BPanic {
-				b.PKind = rng.Intn(4)
+				b.PKind = rng.Intn(5)
 				b.Timeout = rng.Bool()
 				b.Wrap = rng.Bool()
 			}
